@@ -376,6 +376,14 @@ impl Prop for C16 {
         }
         if term_pos.is_none() {
             pages.last_mut().unwrap().push((Ipv4Addr::UNSPECIFIED, 0));
+            // now and then the datagram is padded with zero bytes after the terminator (which read as
+            // further 0.0.0.0:0 entries): the listing still ends at the first one
+            // (a page stays within the 231 entries a master puts into one datagram)
+            if t.draw(CFG, 8) == 0 && pages.last().unwrap().len() <= 227 {
+                for _ in 0 .. 1 + t.draw(CFG, 3) {
+                    pages.last_mut().unwrap().push((Ipv4Addr::UNSPECIFIED, 0));
+                }
+            }
         }
         // expected listing: all addresses in order up to the first terminator; an empty page ends the listing
         let mut expected: Vec<(IpAddr, u16)> = Vec::new();
